@@ -198,6 +198,12 @@ func (fr *Frame) nativeCallVals(st *State, fn *ssa.Function, args []Val, sig *ty
 			a, b := fr.tvOf(st, args[0], nil), fr.tvOf(st, args[1], nil)
 			return TV{ite(app("<", a.S, b.S), "(- 1)", ite(eq(a.S, b.S), "0", "1")), SInt, types.Typ[types.Int]}, true
 		}
+	case "bytes.HasPrefix":
+		if key {
+			used()
+			a, b := fr.tvOf(st, args[0], nil), fr.tvOf(st, args[1], nil)
+			return TV{app("khasprefix", a.S, b.S), SBool, types.Typ[types.Bool]}, true
+		}
 	case "bytes.Equal":
 		if key {
 			used()
